@@ -276,6 +276,18 @@ func Supervise(a SuperArgs) int {
 	if len(res.MaxF) > 0 {
 		cov["maxima"] = res.MaxF
 	}
+	if hp := os.Getenv("VERIF_HARVEST"); hp != "" {
+		if hb, herr := os.ReadFile(hp); herr == nil {
+			var h struct {
+				Strings []string `json:"strings"`
+				Ints    []int    `json:"ints"`
+				Files   int      `json:"files"`
+			}
+			if json.Unmarshal(hb, &h) == nil {
+				cov["constants_harvested_from_the_tree"] = map[string]any{"source_files": h.Files, "string_literals_added_to_dictionaries": len(h.Strings), "integer_literals_added_to_size_lists": h.Ints}
+			}
+		}
+	}
 	samples := []any{}
 	skeys := []string{}
 	for k := range res.Samples {
